@@ -348,11 +348,14 @@ class RealFloat(numbers.Rational):
                 other = RealFloat.from_int(other)
             case float():
                 if math.isnan(other) or math.isinf(other):
-                    # Convert self to float and perform float arithmetic
+                    if self._c == 0 and math.isinf(other):
+                        # 0 * inf is invalid (IEEE 754 §7.2)
+                        return math.nan
+                    # the sign of the result is the XOR of the operand signs
                     other_sgn = math.copysign(1.0, other) # extract the sign bit
                     s = self._s != (other_sgn < 0)
                     res_sgn = -1.0 if s else 1.0
-                    return other * res_sgn
+                    return math.copysign(other, res_sgn)
                 else:
                     other = RealFloat.from_float(other)
             case Fraction():
